@@ -401,8 +401,9 @@ theorem assignF_abs (hc : CfgOK c) {s s' : FStr} (hs : WF c s) {co : Cfg} {o : F
 theorem sprintf_abs (hc : CfgOK c) {s s' : FStr} (hs : WF c s) (text : Str) (h : sprintf c s text = .ok s') :
     abs s' = text.take c.L := by
   obtain ⟨hb, hl, h0⟩ := hs
-  unfold sprintf at h
+  unfold sprintf sprintfF sprintfV vsnOut Fmt.text Fmt.result at h
   simp only at h
+  rw [if_neg (by omega), Int.toNat_natCast] at h
   have h1 : min c.L text.length ≤ c.L := Nat.min_le_left _ _
   have h2 : min c.L text.length ≤ text.length := Nat.min_le_right _ _
   have h3 : min text.length c.L = min c.L text.length := Nat.min_comm _ _
@@ -414,5 +415,36 @@ theorem sprintf_abs (hc : CfgOK c) {s s' : FStr} (hs : WF c s) (text : Str) (h :
   apply List.ext_getElem?; intro i
   rw [List.getElem?_take, wr_get _ _ _ _ (by rw [hlen]; omega), hlen]
   by_cases a0 : c.L ≤ text.length <;> by_cases a1 : i < c.L <;> by_cases a2 : i < text.length <;> fs_reg
+
+/-- a failing formatter (`vsnprintf` returns -1): the string is empty afterwards, whatever the formatter left in the
+    buffer -/
+theorem sprintfV_neg {s s' : FStr} (written : Str) {result : Int} (hr : result < 0)
+    (h : sprintfV c s written result = .ok s') : s'.len = 0 ∧ abs s' = [] := by
+  unfold sprintfV at h
+  rw [if_pos hr] at h
+  cases hw : Mem.write s.buf 0 written "vsnprintf" with
+  | oob x => rw [hw, bindR_oob] at h; cases h
+  | throw e => rw [hw, bindR_throw] at h; cases h
+  | ok b =>
+    rw [hw, bindR_ok] at h
+    unfold finish narrow at h
+    rw [Nat.zero_mod] at h
+    cases hp : put1 b 0 0 with
+    | oob x => rw [hp, bindR_oob] at h; cases h
+    | throw e => rw [hp, bindR_throw] at h; cases h
+    | ok b' =>
+      rw [hp, bindR_ok] at h
+      cases h
+      exact ⟨rfl, by simp [abs]⟩
+
+/-- the text after `sprintf` for both outcomes of the formatter: the formatted text cut at the capacity, or nothing -/
+theorem sprintfF_abs (hc : CfgOK c) {s s' : FStr} (hs : WF c s) (f : Fmt) (h : sprintfF c s f = .ok s') :
+    abs s' = (match f with | .done t => t | .failed _ => []).take c.L := by
+  cases f with
+  | done t => exact sprintf_abs hc hs t h
+  | failed p =>
+    unfold sprintfF at h
+    have := (sprintfV_neg (c := c) _ (by simp [Fmt.result]) h).2
+    rw [this]; simp
 
 end CelmaVerif.FixedString
